@@ -1495,6 +1495,38 @@ func execFailTemplates(s *ev.Shard, b *sandbox.Box, report func(sig, msg string,
 			}
 		}
 	}
+	// exit statuses of one task's commands that add up to a multiple of 256 (1+255, 128+128, 100+100+56,
+	// 255+255+2): a failure is a failure, however the statuses combine
+	for _, sts := range [][]int{{1, 255}, {255, 1}, {128, 128}, {2, 254}, {42, 214}, {100, 100, 56}, {255, 255, 2}, {1, 0, 255}, {64, 64, 64, 64}} {
+		var sb strings.Builder
+		sb.WriteString("task sums(\"in.txt\") {\n")
+		for _, st := range sts {
+			fmt.Fprintf(&sb, "    sh -c 'exit %d'\n", st)
+		}
+		sb.WriteString("}\n")
+		for _, flags := range [][]string{nil, {"--json"}, {"--quiet"}, {"--force"}} {
+			if err := b.ResetAs(""); err != nil {
+				return &rp.Fail{Sig: "harness", Msg: err.Error()}
+			}
+			if err := writeProject(b, b.Proj, map[string]string{"spokfile": sb.String(), "in.txt": "x"}); err != nil {
+				return &rp.Fail{Sig: "harness", Msg: err.Error()}
+			}
+			c := map[string]any{"statuses_of_the_commands_of_one_task": sts, "flags": flags}
+			eval("statuses_adding_up_to_a_multiple_of_256", c)
+			r := b.Run(b.Proj, nil, runTimeout, append(append([]string(nil), flags...), "sums")...)
+			if r.Exit == 0 {
+				fail("failure-exits-zero", fmt.Sprintf("a task whose commands exit with %v (flags %v): spok exited 0", sts, flags), c)
+				continue
+			}
+			if !regexp.MustCompile(`\bsums\b`).MatchString(sandbox.Strip(r.Stderr)) {
+				fail("failing-task-not-identified", fmt.Sprintf("a task whose commands exit with %v (flags %v): exit %d, the error does not name the task: %q", sts, flags, r.Exit, clip(sandbox.Strip(r.Stderr))), c)
+			}
+			r2 := b.Run(b.Proj, nil, runTimeout, "sums")
+			if r2.Exit == 0 {
+				fail("failed-task-treated-as-up-to-date", fmt.Sprintf("a task whose commands exit with %v (flags %v) failed; the same request without any change then succeeds:\n%s", sts, flags, clip(sandbox.Strip(r2.Stdout))), c)
+			}
+		}
+	}
 	long := "echo " + strings.Repeat("a-rather-long-argument ", 12) + "&& exit 4"
 	src := "task release() {\n    " + long + "\n}\n"
 	for _, env := range [][]string{nil, {"COLUMNS=80", "LINES=24"}, {"COLUMNS=40", "LINES=24", "TERM=xterm-256color"}, {"COLUMNS=20"}, {"COLUMNS=0"}, {"COLUMNS=1"}} {
